@@ -134,8 +134,12 @@ def Service.lookup (svc : Service) (key : String) : Option Iface :=
 
 /-- registered names, each once (first occurrence order; the real order is the
     hash map's and is canonicalised away in the correspondence) -/
+def dedup : List String → List String
+  | [] => []
+  | x :: xs => x :: (dedup xs).filter (fun y => y != x)
+
 def Service.keys (svc : Service) : List String :=
-  (svc.ifaces.map (·.name)).eraseDups
+  dedup (svc.ifaces.map (·.name))
 
 def Service.infoJson (svc : Service) : Json :=
   .obj [("interfaces", .arr ((svcName :: svc.keys).map .str)),
